@@ -120,6 +120,7 @@ probes! {
     rng_mode_counter => "rng_mode_runs.counter",
     rng_mode_bitwalk => "rng_mode_runs.bit_walk",
     rng_mode_zero => "rng_mode_runs.zero_forever",
+    rng_mode_sweep => "rng_mode_runs.stratified_counter_sweep",
     rng_skew => "rng_mode_runs.width_skew",
     rng_burst_fired => "rng_fault_fired.stuck_burst",
     rng_long_burst => "rng_fault_fired.long_stuck_burst_2^10..2^17",
